@@ -192,7 +192,7 @@ def dagobs_cases(rng, tier):
     addFather / addSon / link with and without edge objects (fresh, attached elsewhere, none); removals, re-rootings,
     copies of the observer (copy constructor, clone, operator=), validity / rootedness queries in between"""
     cases = []
-    nobs = 1200 if tier == "thorough" else 260
+    nobs = 1200 if tier == "thorough" else 500
     for i in range(nobs):
         n = rng.randint(1, 6)
         ops = ["w.createNode %d" % a for a in range(n)]
@@ -256,7 +256,7 @@ def copy_cases(rng, tier):
     assigned / assigned through the GlobalGraph base into another container; then one of the two is edited and both
     are queried: the other one must not move, the cached validity of each must stay sound"""
     cases = []
-    ncopy = 1500 if tier == "thorough" else 260
+    ncopy = 1500 if tier == "thorough" else 600
     for i in range(ncopy):
         directed = rng.random() < 0.75
         n = rng.randint(1, 6)
@@ -404,7 +404,7 @@ def obs_cases(rng, tier):
     addSon / setFather with and without edge objects, moved around with setFather (with the object of the
     current branch, a fresh one, one attached elsewhere, none), re-rooted, with validity queries in between"""
     cases = []
-    nobs = 1500 if tier == "thorough" else 300
+    nobs = 1500 if tier == "thorough" else 500
     for i in range(nobs):
         rooted = rng.random() < 0.85
         n = rng.randint(2, 7)
